@@ -190,6 +190,11 @@ impl GraphEngine {
     ///
     /// Returns an error if node retrieval fails.
     pub fn astar_path(&self, from: u64, to: u64, config: &AStarConfig) -> Result<AStarResult> {
+        // Check nodes exist (also for from == to: a node that does not exist is no path)
+        if !self.node_exists(from) || !self.node_exists(to) {
+            return Ok(AStarResult::empty());
+        }
+
         if from == to {
             return Ok(AStarResult {
                 path: Some(WeightedPath {
@@ -200,11 +205,6 @@ impl GraphEngine {
                 nodes_explored: 1,
                 open_set_size: 0,
             });
-        }
-
-        // Check nodes exist
-        if !self.node_exists(from) || !self.node_exists(to) {
-            return Ok(AStarResult::empty());
         }
 
         // Default heuristic: zero (degrades to Dijkstra)
